@@ -15,7 +15,8 @@ EXPLANATION = (
     "from_digests([digest(subject)] ++ map(digest, sorted assertions))); C01.3: DigestProvider for Envelope returns, per "
     "variant arm, that arm's own stored/declared digest and the match is exhaustive; C01.4: no mutation path (no projected "
     "assignment through Envelope/EnvelopeCase/Assertion, no Rc/Arc get_mut/make_mut/try_unwrap, no interior mutability in the "
-    "type tree, no &mut self method); C01.5: every decoder accept value is a constructor call over the decoded children (node = constructor(decode(elements[0]), decode(elements[1..]))); C01.6 route independence: a node's digest is a function of the set of its assertion digests, so the add path refuses an element whose digest is present and the remove path takes out exactly the element with the target's digest (the C04.1/C04.3/C04.5 instances re-evaluated here: every assertion vector handed to a node constructor has a recognised non-empty, duplicate-free form). The digest list and the stored vector are compared in sequence normal form (vec!+push loop, extend(map), once().chain().map().collect() are the same sequence); a comparator may be a closure or a crate function. C01.7: every digest-declaring sink (elide / encrypt / compress, incl. the action arms of the obscuring descent) declares the digest of the very element it replaces (the C02.1/C02.2 instances). Does not decide SHA-256, dCBOR serialisation or Digest::from_digests' concatenation.")
+    "type tree, no &mut self method); C01.5: every decoder accept value is a constructor call over the decoded children (node = constructor(decode(elements[0]), decode(elements[1..]))); C01.6 route independence: a node's digest is a function of the set of its assertion digests, so the add path refuses an element whose digest is present and the remove path takes out exactly the element with the target's digest (the C04.1/C04.3/C04.5 instances re-evaluated here: every assertion vector handed to a node constructor has a recognised non-empty, duplicate-free form). The digest list and the stored vector are compared in sequence normal form (vec!+push loop, extend(map), once().chain().map().collect() are the same sequence); a comparator may be a closure or a crate function. C01.7: every digest-declaring sink (elide / encrypt / compress, incl. the action arms of the obscuring descent) declares the digest of the very element it replaces (the C02.1/C02.2 instances). Does not decide SHA-256, dCBOR serialisation or Digest::from_digests' concatenation."
+    " C01.8: what uncompress / decrypt_subject return has the digest the obscured element declared (the C13.2 / C08.2 guards re-evaluated here).")
 TRUSTED = ['Digest::from_image = SHA-256 of its argument', 'Digest::from_digests hashes the concatenation of the slice in order',
            'CBOR::to_cbor_data is the dCBOR serialisation']
 ASSUMPTIONS = ['dependencies behave as their documented summaries']
@@ -460,3 +461,17 @@ def check(ctx):
         obscure.check_elide_primitive(ctx, 'C01.7/elide')
     except Exception as e:
         ctx.fail('C01.7', '-', 'declared-digest pairing (C02.1/C02.2) could not be evaluated: %r' % e, key='C01.7|c02')
+    # C01.8: what uncompress / decrypt_subject hand back has the digest the obscured element declared (the content checks C13.2 / C08.2)
+    from .C07 import Relabel as _Relabel
+    if ctx.has('compress'):
+        from . import C13
+        try:
+            C13.check(_Relabel(ctx, 'C01.8', ['C13.2']))
+        except Exception as e:
+            ctx.fail('C01.8', '-', 'uncompress digest check (C13.2) could not be evaluated: %r' % e, key='C01.8|c13')
+    if ctx.has('encrypt'):
+        from . import C08
+        try:
+            C08.check(_Relabel(ctx, 'C01.8', ['C08.2']))
+        except Exception as e:
+            ctx.fail('C01.8', '-', 'decrypt digest check (C08.2) could not be evaluated: %r' % e, key='C01.8|c08')
